@@ -223,11 +223,90 @@ def oracle_conform(cls, restored, pw, idA, idB, x):
                     if o[0] != "key" or o[1] != wantk:
                         return (True, "finish() key differs from the published definition on %s class %s pw=%r idA=%r idB=%r x=%d peer scalar %d (%s)" % (
                             nm, cls, p_, ia, ib, xx, yy, o[1] if o[0] == "exc" else o[1].hex()[:16]))
+    bad = known_log_ed_coincidences(cls, restored, pw, idA, idB)
+    if bad:
+        return (True, bad)
     from checks import matrix
     r = matrix.session_matrix()
     if r:
         return (True, r)
     return (False, "conforms")
+
+
+def known_log_ed_coincidences(cls, restored, pw, idA, idB):
+    """Ed25519 sessions in which two operands of a group operation are the same point reached by different routes:
+    x*G == w*M in start(), peer element == -w*N (so the unblinded element is the identity's neighbour cases) and
+    peer element == w*N's negative double in finish().  Such scalars need log_G(M); the shipped M, N, S have unknown logs,
+    so a custom parameter set is used whose group object is the real Ed25519 wrapper with arbitrary_element(seed) :=
+    H(seed)*G (every other operation is the tree's own)."""
+    import hashlib
+    from checks import common as C, refimpl as R
+    from spake2 import ed25519_basic as E
+    from spake2.ed25519_group import Ed25519Group
+    from spake2.params import _Params
+    sp = C.S()
+    K = {"A": sp.SPAKE2_A, "B": sp.SPAKE2_B, "S": sp.SPAKE2_Symmetric}
+    Lq = R.L
+    mu = lambda seed: int.from_bytes(hashlib.sha256(b"known log " + seed).digest(), "big") % Lq or 1
+
+    class KnownLog(type(Ed25519Group)):
+        def arbitrary_element(self, seed):
+            return E.Base.scalarmult(mu(seed))
+    g = KnownLog()
+    for k_, v_ in vars(Ed25519Group).items():
+        setattr(g, k_, v_)
+    for k_ in ("Base", "Zero", "scalar_size_bytes", "element_size_bytes"):
+        if not hasattr(g, k_):
+            setattr(g, k_, getattr(Ed25519Group, k_))
+    try:
+        params = _Params(g)
+    except Exception as ex:
+        return None                         # the wrapper cannot be specialised on this tree: nothing to report here
+    logs = {"M": mu(b"M"), "N": mu(b"N"), "S": mu(b"symmetric")}
+    mine = {"A": "M", "B": "N", "S": "S"}[cls]
+    theirs = {"A": "N", "B": "M", "S": "S"}[cls]
+    w = g.password_to_scalar(pw)
+    enc = lambda k: R.ed_enc(R.ed_mul(R.ED_BASE, k % Lq))
+    h = lambda b: hashlib.sha256(b).digest()
+    x0 = (w * logs[mine]) % Lq                                     # x0*G == w*M
+    for x in (x0, (x0 + 1) % Lq, (-x0) % Lq):
+        def mk():
+            e = C.entropy_for_scalar(g, x)
+            a = K[cls](pw, idSymmetric=idA, params=params, entropy_f=e) if cls == "S" else K[cls](pw, idA=idA, idB=idB, params=params, entropy_f=e)
+            return a
+        a = mk()
+        try:
+            msg = a.start()
+        except Exception as ex:
+            return "start() raised %s on Ed25519 (known-log parameter set) for the secret scalar x with x*G = w*%s + %d*G" % (
+                type(ex).__name__, mine, (x - x0) % Lq)
+        own_log = (x + w * logs[mine]) % Lq
+        if msg[1:] != enc(own_log):
+            return ("start() message differs from x*G + w*%s on Ed25519 (known-log parameter set, pw=%r) when x*G and w*%s are the same "
+                    "point reached by different routes: got %s" % (mine, pw, mine, msg[1:].hex()[:32]))
+        # peer elements that coincide with the unblinding term or make the unblinded element special
+        for ylog in ((-w * logs[theirs]) % Lq, (w * logs[theirs] + 1) % Lq, (2 * w * logs[theirs]) % Lq, (own_log + 1) % Lq):
+            if ylog == own_log or ylog == 0:
+                continue
+            inst = mk()
+            inst.start()
+            if restored:
+                inst = K[cls].from_serialized(inst.serialize(), params=params)
+            body = enc(ylog)
+            inbound = {"A": b"B", "B": b"A", "S": b"S"}[cls] + body
+            o = C.finish_outcome(inst, inbound)
+            Kb = enc(x * (ylog - w * logs[theirs]))
+            if cls == "A":
+                want = h(h(pw) + h(idA) + h(idB) + msg[1:] + body + Kb)
+            elif cls == "B":
+                want = h(h(pw) + h(idA) + h(idB) + body + msg[1:] + Kb)
+            else:
+                first, second = sorted([msg[1:], body])
+                want = h(h(pw) + h(idA) + first + second + Kb)
+            if o[0] != "key" or o[1] != want:
+                return ("finish() key differs from the published definition on Ed25519 (known-log parameter set, pw=%r) for the peer element "
+                        "%s, chosen to coincide with a multiple of w*%s: %s" % (pw, body.hex()[:16], theirs, o[1] if o[0] == "exc" else "key " + o[1].hex()[:16]))
+    return None
 
 
 def oracle_constants():
